@@ -1,5 +1,6 @@
 import SeqVerif.Proofs.SealCrash
 import SeqVerif.Proofs.LifecycleInv
+import SeqVerif.Model.BufWriter
 import SeqVerif.Extracted.C08
 /-!
 # C08 - sealing is all-or-nothing under crashes and I/O errors
@@ -71,6 +72,24 @@ theorem c08_reseal_after_crash (c : Cfg) (p p' : Plan) (oi os : List Bool) (fs0 
     Start c (applyOps pre ⟨fs0, u⟩).fs ∧ (sealTrace c srcFacts p' [] []).1 = true := by
   have hal := Lifecycle.seal_along c srcFacts p oi os fs0 u c08_x_generators_propagate hd h0
   exact ⟨Lifecycle.sealShape_active_start c _ (((along_iff _ _ _ _).mp hal).1 pre hp) ha, sealTrace_nofault c srcFacts p'⟩
+
+/-- **C08 (the buffered writer under the sorted-docs output loses nothing and hides no error).**  `bytespool.Writer`
+(`SV.BufWriter`, statement by statement) for every buffer capacity, every sequence of `Write`s and `Flush`es and every
+behaviour of the downstream writer (each call: all bytes taken, or an error / short write after any number of bytes):
+if no call of the sequence returned an error then the bytes delivered downstream, followed by those still buffered,
+are exactly the concatenation of the written slices, and every downstream answer consumed was a success - so a failed
+downstream write is reported by the very `Write` or `Flush` in which it happened.  After a final `Flush` the buffer is
+empty, i.e. the file holds the concatenation. -/
+theorem c08_writer_exact (C : Nat) (cmds : List BufWriter.Cmd) (s : BufWriter.St)
+    (h : ∀ r ∈ (BufWriter.exec C cmds s).1, r = true) :
+    (BufWriter.exec C cmds s).2.all = s.all ++ (cmds.map BufWriter.Cmd.data).flatten ∧
+      BufWriter.CleanBetween s (BufWriter.exec C cmds s).2 :=
+  BufWriter.exec_ok C cmds s h
+
+theorem c08_writer_flushed (C : Nat) (cmds : List BufWriter.Cmd) (s : BufWriter.St)
+    (h : ∀ r ∈ (BufWriter.exec C (cmds ++ [.f]) s).1, r = true) :
+    (BufWriter.exec C (cmds ++ [.f]) s).2.buf = [] :=
+  BufWriter.exec_flush_ok C cmds s h
 
 /-- **C08 (a failed seal is not published), index output.**  If any `Seek`/`Write` that was issued on the index
 output got an error, `Seal` fails: `._index` is not renamed to `.index` and nothing is released. -/
@@ -163,7 +182,10 @@ theorem c08_x_sortedDocs_order :
       writeSortedDocsGuard = "!f.Config.SkipSortDocs" ∧
       -- the block offsets and positions it returns are copies: the pooled `docBlocksWriter` they come from is handed
       -- back by the deferred `putDocBlocksWriter` and may be refilled by an overlapping seal (oracle seal.overlap)
-      writeSortedDocsReturn = ["sdocsFile", "slices.Clone(bw.BlockOffsets)", "maps.Clone(bw.Positions)", "nil"] := by decide
+      writeSortedDocsReturn = ["sdocsFile", "slices.Clone(bw.BlockOffsets)", "maps.Clone(bw.Positions)", "nil"] ∧
+      -- a block's offset is the sum of the lengths of the blocks written before it (oracle sdocs.offsets)
+      flushBlockOffsets = ["w.BlockOffsets = append(w.BlockOffsets, w.currentBlockOffset)",
+        "w.currentBlockOffset += uint64(blockLen)"] := by decide
 
 /-- `writeSealedFraction`: sorted docs first, then the index sections in the order `writeIndex` models; a block is
 `Seek` + `Write`, the registry `Seek, Write, Seek, Write` (the last `Write` is the 16-byte header at offset 0), and in
@@ -223,6 +245,12 @@ example :
         .remove .metaF, .remove .docs]) ∧
     (applyOps (sealTrace ⟨false, false⟩ ⟨true, true, true, true⟩ p [] []).2 ⟨{ docs := .full, metaF := .full }, []⟩).fs =
       { sdocs := .full, index := .full } := by decide
+
+/-- the writer theorem has content: a buffer of 4, writes of 3 + 3 + 1 bytes and a flush deliver 0..6 in two
+downstream calls; with the first downstream call failing the second `Write` reports it -/
+example : (BufWriter.exec 4 [.w [0, 1, 2], .w [3, 4, 5], .w [6], .f] {}) =
+    ([true, true, true, true], { buf := [], out := [0, 1, 2, 3, 4, 5, 6], oracle := [] }) := by decide
+example : (BufWriter.exec 4 [.w [0, 1, 2], .w [3, 4, 5]] { oracle := [some 1] }).1 = [true, false] := by decide
 
 /-- the checker is not vacuous: the same operations with `rename` and `sync` swapped are rejected -/
 example : syncedBeforeRename [.create .indexTmp, .write .indexTmp, .rename .indexTmp .index, .sync .index] (fun _ => true) = false := by
